@@ -131,6 +131,65 @@ def gen_history(ch: Choices, known: dict):
     return models, ops
 
 
+def gen_wide(ch: Choices, known: dict):
+    """Many independent problems, each solved once or twice: the workload of the mode differential (one interpreted
+    and one compiled interpreter execute the same long list of calls)."""
+    opts = {"gcc_zero_cap": not known.get("gcc_zero_cap_excluded", False), "max_space": 400, "max_props": 3}
+    nm = 24 + ch.choose(17, "nmodels")
+    models, ops = [], []
+    for i in range(nm):
+        with ch.scope(f"m{i}"):
+            m = gen.gen_model(ch, opts)
+            models.append({k: m[k] for k in ("shr", "idx", "off", "props")})
+            for j in range(1 + ch.choose(3, "ncalls")):
+                with ch.scope(f"c{j}"):
+                    cfg = gen.gen_config(ch, m) if ch.chance(3, 4, "cfg.random") else dict(gen.DEFAULT_CONFIG)
+                    k = ch.weighted([5, 3, 1], "kind")
+                    if k == 0:
+                        o = {"kind": "find_all", "model": i, "cfg": cfg, "reuse_problem": j > 0 and ch.chance(1, 2, "reuse")}
+                        if ch.chance(1, 5, "small_stack"):
+                            o["height"] = 2 + ch.choose(3, "height")
+                    elif k == 1:
+                        o = {"kind": "optimize", "model": i, "cfg": cfg, "reuse_problem": j > 0 and ch.chance(1, 2, "reuse"),
+                             "dir": ["min", "max"][ch.choose(2, "dir")], "var": ch.choose(len(m["idx"]), "var")}
+                    else:
+                        o = {"kind": "split_solve", "model": i, "cfg": cfg, "reuse_problem": False, "k": 1 + ch.choose(4, "k"),
+                             "var": ch.choose(len(m["idx"]), "var")}
+                    ops.append(o)
+    return models, ops
+
+
+def run_wide(ch: Choices, params: dict) -> dict:
+    out = {"violations": [], "probes": Counter(), "faults": Counter(), "steps": 0, "nontrivial": True}
+    models, ops = gen_wide(ch, params.get("known", {}))
+    spec = {"models": models, "ops": ops}
+    pats = [0xFF, 0xA5, 0x00, ["random", ch.choose(1 << 16, "alloc.seed")], None]
+    alloc = pats[ch.choose(len(pats), "alloc")]
+    interp = execute(spec, False, alloc)
+    comp = execute(spec, True)
+    out["probes"]["wide_histories"] += 1
+    out["probes"]["operations"] += len(ops)
+    out["probes"]["calls_compared_across_modes"] += len(ops)
+    if alloc is not None:
+        out["faults"]["dirty-allocator"] += 1
+    if interp is None or comp is None:
+        out["violations"].append({"property": "C15", "oracle": "history-hangs", "message": f"a list of {len(ops)} solver calls on {len(models)} generated problems gives no answer within {TIMEOUT}s (interpreted={interp is not None}, compiled={comp is not None})"})
+    else:
+        for j, o in enumerate(ops):
+            a = interp[j] if j < len(interp) else None
+            b = comp[j] if j < len(comp) else None
+            if a != b:
+                short = {k: v for k, v in o.items() if k != "cfg"} | {"cfg": [o["cfg"]["cons"], o["cfg"]["var_h"], o["cfg"]["dom_h"]]}
+                what = "an error" if (a and "error" in a) != (b and "error" in b) else next((k for k in ("solutions", "stats", "domains", "error") if (a or {}).get(k) != (b or {}).get(k)), "?")
+                out["violations"].append({"property": "C15", "oracle": "interpreted-differs-from-compiled", "message": f"[{gen.render_model(dict(models[o['model']]))} call {short}] {what} differ: interpreted {str(a)[:300]} compiled {str(b)[:300]}"})
+                break
+        out["probes"]["operations_raising"] += sum(1 for o in interp if "error" in o)
+    out["log_sha"] = sha([interp, comp])
+    out["key"] = sha(spec)[:16]
+    out["sample"] = {"models": [gen.render_model(dict(m)) for m in models[:3]], "calls": len(ops)}
+    return out
+
+
 def clean_room_chain(ops: List[dict], i: int) -> List[dict]:
     """The operations op i legitimately depends on: its own solver's chain, registrations for use_custom."""
     op = ops[i]
@@ -151,6 +210,8 @@ def clean_room_chain(ops: List[dict], i: int) -> List[dict]:
 
 def run(ch: Choices, focus: str = "C15", params: Optional[dict] = None) -> dict:
     params = params or {}
+    if params.get("wide"):
+        return run_wide(ch, params)
     out = {"violations": [], "probes": Counter(), "faults": Counter(), "steps": 0, "nontrivial": True}
     V = out["violations"]
 
